@@ -138,6 +138,12 @@ func newPopulated(env *core.Env, name string, items []treeItem) (*populated, err
 				if err := hackpadfs.WriteFullFile(sub, "in-mount", []byte("mounted"), 0o644); err != nil {
 					return nil, err
 				}
+				// the directory that is about to be hidden, and names below it, are looked at first (answers remembered from
+				// before the mount must not be given afterwards)
+				_ = hackpadfs.WriteFullFile(mfs, pre+it.Path+"/hidden-below", []byte("h"), 0o644)
+				_, _ = hackpadfs.ReadDir(mfs, pre+it.Path)
+				_, _ = hackpadfs.Stat(mfs, pre+it.Path+"/in-mount")
+				_, _ = hackpadfs.Stat(mfs, pre+it.Path+"/hidden-below")
 				if err := mfs.AddMount(pre+it.Path, sub); err != nil {
 					return nil, err
 				}
